@@ -537,4 +537,66 @@ func genC14(o *hx.Out, tier string) {
 			o.Add("server idle expiry", verdict, "expect", "ok", fmt.Sprintf("server udp=%v sc=%d", udp, sc))
 		}
 	}
+	// (6) idle expiry against the timed model: a peer sends in bursts, then stops; the channel must
+	// be closed one idle time-out after its LAST reception (the model gets the arrival times)
+	nid := 2
+	if tier == "thorough" {
+		nid = 12
+	}
+	for sc := 0; sc < nid; sc++ {
+		for _, udp := range []bool{false, true} {
+			dms := 400
+			addr := fmt.Sprintf("127.0.0.1:%d", base+16+sc%3)
+			var ep gomavlib.EndpointConf = gomavlib.EndpointTCPServer{Address: addr}
+			network := "tcp4"
+			if udp {
+				ep = gomavlib.EndpointUDPServer{Address: addr}
+				network = "udp4"
+			}
+			node, err := gomavlib.NewNode(gomavlib.NodeConf{Endpoints: []gomavlib.EndpointConf{ep}, Dialect: d,
+				OutVersion: gomavlib.V2, OutSystemID: 10, HeartbeatDisable: true, IdleTimeout: time.Duration(dms) * time.Millisecond})
+			if err != nil {
+				continue
+			}
+			col := scn.NewCollector(node, 0, false)
+			peer, err := net.Dial(network, addr)
+			if err != nil {
+				node.Close()
+				continue
+			}
+			// offsets in ms after the first frame: gaps below the time-out, some below half of it
+			offs := []int{0}
+			cur := 0
+			for i := 0; i < 2+r.Intn(4); i++ {
+				cur += []int{60, 100, 150, 320, 340}[r.Intn(5)]
+				offs = append(offs, cur)
+			}
+			t0 := time.Now()
+			var arr []string
+			for _, off := range offs {
+				time.Sleep(time.Until(t0.Add(time.Duration(off) * time.Millisecond)))
+				peer.Write(frameB) //nolint:errcheck
+				arr = append(arr, strconv.Itoa(int(time.Since(t0)/time.Millisecond)))
+			}
+			impl := "NOT-CLOSED"
+			col.Wait(func() bool {
+				for _, ch := range col.Channels() {
+					for _, e := range col.Events(ch) {
+						if ce, ok := e.(*gomavlib.EventChannelClose); ok {
+							if isTimeout(ce.Error) {
+								impl = strconv.Itoa(int(time.Since(t0) / time.Millisecond))
+							} else {
+								impl = fmt.Sprintf("CLOSE-CAUSE-NOT-A-TIMEOUT %v", ce.Error)
+							}
+							return true
+						}
+					}
+				}
+				return time.Since(t0) > time.Duration(cur+4*dms)*time.Millisecond+2*time.Second
+			})
+			peer.Close()
+			scn.CloseWithin(node, 10*time.Second)
+			o.Add(fmt.Sprintf("idle expiry after bursts udp=%v", udp), impl, "idle", strconv.Itoa(dms), strings.Join(arr, " "))
+		}
+	}
 }
